@@ -25,8 +25,8 @@ OPS += [
  # a late-greeting upstream; `open2` is FALSE for merge (kernel-checked: `merge_not_open2`), replaced by "M₁ subscribes only inside its own subscription")
  ("take_member_of_merge", "{α : Type} (max n j : Nat)",
   "plugOp j (Take.machine α max) (Merge.machine α n true)", "LateMember.plugOp_take_merge_basicSafe max n j s hs", "LateMember"),
- ("relay_member_of_merge", "{σ α : Type} (k : Relay.Kind σ α α) (hk : k.slotted = false → ∀ s a, (k.xfer s a).2 ≠ none) (n j : Nat)",
-  "plugOp j (Relay.machine k) (Merge.machine α n true)", "LateMember.plugOp_relay_merge_basicSafe k hk n j s hs", "LateMember"),
+ ("relay_member_of_merge", "{σ α : Type} (kd : Relay.Kind σ α α) (hk : kd.slotted = false → ∀ s a, (kd.xfer s a).2 ≠ none) (n j : Nat)",
+  "plugOp j (Relay.machine kd) (Merge.machine α n true)", "LateMember.plugOp_relay_merge_basicSafe kd hk n j s hs", "LateMember"),
 ]
 READABLE = {
  "01": ("GreetFirstOnce", "greetFirstOnce_of_clean hs (fun v hv => h.1 v (by unfold G.viols; exact List.mem_append_right _ hv)) k",
